@@ -1,10 +1,12 @@
 """C05 Crossing-branch removal always yields continuous trees, heads kept in place."""
+import io
+import copy
 import itertools
-from .. import model, sweep, refs
+from .. import model, sweep, refs, codecs
 from ..runner import Result
-from ..bridge import T, build, quiet, monitor, extract, mt_equal, all_nodes, raw_leaves
+from ..bridge import T, build, quiet, monitor, extract, mt_equal, all_nodes, raw_leaves, cli_options
 
-from trees import transform
+from trees import transform, treeoutput
 
 ID = 'C05'
 LEVEL = 'exploration'
@@ -23,7 +25,7 @@ def plan(tier, seed):
         'chunks': chunks,
         'rule': 'every hierarchy over n tokens with up to u unary insertions x every head assignment (one head '
                 'child per constituent, expressed through HD edges) x {with, without root_attach first}; '
-                'boyd_split alone (blocks, head block, marking/numbering) and the full pipeline against the '
+                'boyd_split alone (blocks, head block, marking/numbering via get_label and, for discontinuous inputs, as written by the export 3 / export 4 / discobrackets writers and read back by the independent decoders) and the full pipeline against the '
                 'set-based reference; the same pipeline through `treetools transform --trans ...` on corpora holding every '
                 'shape up to n = 5 (6) as one sentence each. non-trivial = distinct (shape, heads, root_attach) cases whose input is '
                 'discontinuous',
@@ -162,6 +164,36 @@ def check_one(mtj, root_attach, order=None, rules=None):
             if lab != exp:
                 bad('split-marking', 'get_label', 'label of block %d of %s written as %r, expected %r'
                     % (i + 1, nd[0], lab, exp), 'split marking/numbering not on exactly the split nodes')
+    # ... "as the split marking/numbering output options show": the same through every writer that carries labels
+    exp_nodes = []
+    for nd in model.mt_all(base.root):
+        if not isinstance(nd, int) and nd is not base.root:
+            blocks = model.blocks_of(model.leaves(nd))
+            for i, b in enumerate(blocks):
+                exp_nodes.append((nd[0] + ('*%d' % (i + 1) if len(blocks) > 1 else ''), tuple(b)))
+    for fmt, wopts in (('export', {}), ('export', {'export_four': True}), ('discobrackets', {})):
+        if order is not None or not disc:
+            break
+        wopts = cli_options(dict(wopts, boyd_split_marking=True, boyd_split_numbering=True))
+        try:
+            stream = io.StringIO()
+            getattr(treeoutput, fmt + '_begin')(stream, **wopts)
+            getattr(treeoutput, fmt)(copy.deepcopy(t), stream, **wopts)     # writers may rewrite the words
+            getattr(treeoutput, fmt + '_end')(stream, **wopts)
+            if fmt == 'export':
+                g_root = codecs.decode_export(stream.getvalue(), version=4 if 'export_four' in wopts else 3)[0].root
+            else:
+                g_root = codecs.decode_discobrackets(stream.getvalue())[0][0]
+        except Exception as e:
+            bad('exception', 'treeoutput.' + fmt, '%s: %s (options %r)' % (type(e).__name__, e, sorted(wopts)),
+                'writing the split tree with marking/numbering options failed')
+            continue
+        got_nodes = [(nd[0], tuple(model.leaves(nd))) for nd in model.mt_all(g_root)
+                     if not isinstance(nd, int) and nd is not g_root]
+        if sorted(got_nodes) != sorted(exp_nodes):
+            bad('split-marking-written', 'treeoutput.' + fmt, 'options %r: written nodes %r, expected %r'
+                % (sorted(wopts), sorted(got_nodes), sorted(exp_nodes)),
+                'the written file does not show the split marking/numbering on exactly the split nodes')
     n_cons = sum(1 for nd in model.mt_all(base.root) if not isinstance(nd, int))
     n_blocks = sum(len(model.blocks_of(model.leaves(nd))) for nd in model.mt_all(base.root)
                    if not isinstance(nd, int))
